@@ -780,7 +780,8 @@ def _compare(c, io, drv):
     got = io["out"]
     rz = _raising(c)
     L0 = len(model["out"])
-    used0 = _used_sources(c, io, model)
+    used0 = _used_sources(c, io, model) | ({i for i, d in enumerate(c.get("srcs", [])) if d.get("as", "stream") in UNCOUNTED}
+                                            if c["entry"] != "expr" else set())
     # a raising source must raise when it is what ends the output (no other used source ends there too)
     must_raise = [i for i, ln in rz if i in used0 and ln == L0 and L0 < n and not any(
         j != i and j in used0 and src_len(d) == L0 for j, d in enumerate(c.get("srcs", [])))]
